@@ -10,7 +10,10 @@ mod dn_sim;
 mod engine;
 mod keys;
 mod recipe;
+mod sign_sim;
 mod signer;
+mod sysseam;
+mod world;
 
 use engine::{Engine, Tier, WorkerArgs};
 
@@ -33,6 +36,15 @@ fn dispatch<E: Engine>(cmd: &str, args: &[String]) -> i32 {
                 stop_on_violation: !args.iter().any(|a| a == "--keep-going"),
             };
             engine::worker::<E>(&a);
+            0
+        }
+        "gen" => {
+            let seed: u64 = arg(args, "--seed").and_then(|s| s.parse().ok()).unwrap_or(20261003);
+            let i: u64 = arg(args, "--index").and_then(|s| s.parse().ok()).unwrap_or(0);
+            let mode = arg(args, "--mode").unwrap_or_else(|| "default".into());
+            let tier = if arg(args, "--tier").as_deref() == Some("thorough") { Tier::Thorough } else { Tier::Quick };
+            let rs = simcore::prng::run_seed(seed, &format!("{}/{}", E::NAME, mode), i);
+            println!("{}", serde_json::to_string(&serde_json::json!({"trace": E::generate(rs, i, tier, &mode)})).unwrap());
             0
         }
         "exec" => engine::exec_file::<E>(&arg(args, "--trace").expect("--trace"), args.iter().any(|a| a == "-v")),
@@ -62,12 +74,13 @@ fn main() {
                 serde_json::json!({
                     "crypto": cfg!(feature = "crypto"), "ring": cfg!(feature = "ring"), "aws_lc_rs": cfg!(feature = "aws_lc_rs"),
                     "pem": cfg!(feature = "pem"), "x509_parser": cfg!(feature = "x509-parser"), "zeroize": cfg!(feature = "zeroize"),
-                    "hook_rcgen_verif": cfg!(rcgen_verif),
+                    "hook_rcgen_verif": cfg!(rcgen_verif), "system_seam": sysseam::present(),
                 })
             );
             0
         }
         "dn-sim" => dispatch::<dn_sim::DnSim>(&args[2], &args[3..]),
+        "sign-sim" => dispatch::<sign_sim::SignSim>(&args[2], &args[3..]),
         other => {
             eprintln!("unknown engine {other}");
             2
